@@ -186,6 +186,31 @@ def summary(chk, crate, f):
             good = from_si and clo_ok
             if not clo_ok:
                 why += " (closure is not a pure conversion of its argument)"
+        elif val[0] == "path" and not val[2] and val[1].startswith("_") and val[1][1:].isdigit():
+            # the same thing spelled as a match: `match si.f { Some(v) => Some(conv(v)), None => None }` - two
+            # definitions, None and Some(conversion of the payload of <status information>.name)
+            defs = f.tr.defs.get(int(val[1][1:]), [])
+            vals = [f.ex.rvalue(d_[3]["rv"]) for d_ in defs if d_[2] == "assign"]
+            nones = [v_ for v_ in vals if v_[0] == "agg" and v_[1].endswith("Option::None")]
+            somes = [v_ for v_ in vals if v_[0] == "agg" and v_[1].endswith("Option::Some") and len(v_[2]) == 1]
+            if len(vals) == len(defs) == 2 and len(nones) == 1 and len(somes) == 1:
+                conv = somes[0][2][0]
+                payloads = []
+                for x in walk(conv):
+                    if x[0] in ("proj", "path"):
+                        flds = []
+                        base = x
+                        while base[0] == "proj":
+                            flds = list(base[2]) + flds
+                            base = base[1]
+                        if base[0] == "path":
+                            flds = list(base[2]) + flds
+                        if flds[-3:] == [name, "@Some", "0"] and "status_information" in show(x):
+                            payloads.append(x)
+                arith = any(x[0] == "bin" for x in walk(conv))
+                others = [x for x in walk(conv) if x[0] in ("var", "upvar") and not any(x in list(walk(p_)) for p_ in payloads)]
+                good = bool(payloads) and not arith and not others
+                why = show(conv)[:140] + ("" if good else " (not a pure conversion of the reported field)")
         chk.require(good, "C08-b/summary-wiring", inst,
                     "summary field %s is %s, expected a conversion of the reported StatusInformation.%s" % (name, why, name),
                     "= status.%s" % name, f.sp(bb))
